@@ -1349,22 +1349,60 @@ func (b *builder) addPoisonJSONUnit() {
 	cfg := &h.Cfg
 	b.queryEvent(ts, "db", "BEGIN")
 	types, meta, nullable := t.typesAndMeta()
-	b.add(evTableMap, ts, 0, tableMapBody(cfg.Format, t.ID, 1, t.DB, t.Name, types, meta, nullable, nil), fmt.Sprintf("TABLE_MAP id=%d db.jdoc", t.ID))
 	typ := byte(evWriteRowsV1)
 	if cfg.RowsV2 {
 		typ = evWriteRowsV2
 	}
-	body := rowsBodyHeader(cfg.Format, cfg.RowsV2, t.ID, 1, nil, 2, []bool{true, true})
-	body = append(body, 0)                   // null bitmap
-	body = leN(body, uint64(1+s.N(1000)), 4) // id
-	body = leN(body, uint64(len(doc)), 4)
-	body = append(body, doc...)
-	b.add(typ, ts, 0, body, "ROWS json with an unsupported opaque scalar")
+	if s.Chance(1, 3) {
+		// other decode failure: a rows event (with a real row) for a table id that no
+		// table map has announced on this connection, e.g. the all-ones 3-byte value
+		// some clients treat as "dummy event"
+		cands := []uint64{0xffffff, 0xffffff, maxID + 9, 1, uint64(s.U64() & 0xffffffff)}
+		if !cfg.TableID4 {
+			cands = append(cands, 0xffffffff, 0xffffffffffff)
+		} else {
+			cands = append(cands, 0xffffffff)
+		}
+		id := cands[s.N(len(cands))]
+		for _, x := range h.Tables {
+			if x.ID == id {
+				id = maxID + 11
+			}
+		}
+		typ = byte([]int{evWriteRowsV1, evUpdateRowsV1, evDeleteRowsV1}[s.N(3)])
+		bms := [][]bool{{true, true}}
+		if typ == evUpdateRowsV1 {
+			bms = append(bms, []bool{true, true})
+		}
+		if cfg.RowsV2 {
+			typ += evWriteRowsV2 - evWriteRowsV1
+		}
+		body := rowsBodyHeader(cfg.Format, cfg.RowsV2, id, 1, nil, 2, bms...)
+		for range bms {
+			body = append(body, 0)
+			body = leN(body, uint64(1+s.N(1000)), 4)
+			body = leN(body, 3, 4)
+			body = append(body, 4, 1, 0) // JSON literal true
+		}
+		h.Tables = h.Tables[:len(h.Tables)-1] // the table of this unit is never announced
+		b.add(typ, ts, 0, body, fmt.Sprintf("ROWS for table id %d which no table map announced", id))
+		u.Desc = "tx-with-rows-for-unannounced-table-id"
+	} else {
+		b.add(evTableMap, ts, 0, tableMapBody(cfg.Format, t.ID, 1, t.DB, t.Name, types, meta, nullable, nil), fmt.Sprintf("TABLE_MAP id=%d db.jdoc", t.ID))
+		body := rowsBodyHeader(cfg.Format, cfg.RowsV2, t.ID, 1, nil, 2, []bool{true, true})
+		body = append(body, 0)                   // null bitmap
+		body = leN(body, uint64(1+s.N(1000)), 4) // id
+		body = leN(body, uint64(len(doc)), 4)
+		body = append(body, doc...)
+		b.add(typ, ts, 0, body, "ROWS json with an unsupported opaque scalar")
+	}
 	commit := b.add(evXID, h.ts(s), 0, le64(nil, s.U64()), "XID")
 	u.Tx = &ExpTx{Unit: b.unit, Next: b.posOf(commit), Timestamp: int64(commit.Timestamp), Commit: commit}
 	u.End = b.off
 	u.Events = b.curFile().Events[startIdx:]
-	u.Desc = "tx-with-undecodable-json"
+	if u.Desc == "" {
+		u.Desc = "tx-with-undecodable-json"
+	}
 }
 
 // addTxWithTables: BEGIN, one rows statement over the given tables, XID.
